@@ -177,7 +177,11 @@ Definition after_first (cfg : pconfig) (now : Z) (before : cur) (a1 : oanswer) (
       (negb (relayed_from answers o), before)
     else (negb (relayed_from answers o || built_from_200 (answers_of answers) o), CurUnknown)
   else if oa_status a1 =? 416 then
-    (negb (relayed_from answers o || built_from_200 (answers_of answers) o), CurUnknown)
+    (* not decided by the statement (with retry_on_range_416 the request is repeated and whatever comes
+       back is treated in its own right): the 416 or a later answer relayed, a later 200, or the stored
+       body after a later 304 *)
+    (negb (relayed_from answers o || built_from_200 (answers_of answers) o
+           || match before with CurIs a _ _ _ => served_stored a o | _ => false end), CurUnknown)
   else
     (* "any other answer is relayed to the client and not stored" *)
     (negb (relayed_from answers o), before).
